@@ -654,4 +654,5 @@ def check(prog: Program, rep):
     width_cache(prog, rep, "C17.R3b")
     rep.rule("C17.R7", "antichain / min-cost-flow numerics: positive-weight test, supply above the sum of demands, uncapacitated arcs, exact demands, ignored edges counted once", floor=5)
     antichain_numerics(prog, rep, "C17.R7")
-
+    from rules.values import no_memoised_functions_of_caller_objects
+    no_memoised_functions_of_caller_objects(prog, rep, "C17.R1c", ["flowpaths.utils.graphutils", "flowpaths.utils.safetyflowdecomp", "flowpaths.utils.safetypathcovers", "flowpaths.utils.safetypathcoverscycles"])
